@@ -2,7 +2,7 @@
    restatement of Cfg/CfgOps.v; both are run against the implementation by Cfg/C15Check.v) *)
 From Coq Require Import ZArith List.
 From Falcon Require Import Graph.NMap Graph.Graph Graph.GraphInv.
-From Falcon Require Import Base.Res IL.Const IL.Expr IL.Func Cfg.CfgOps Cfg.SOps Cfg.SProofs Cfg.Lang Cfg.MergeProofs Cfg.AppendProofs Cfg.AppendLang Cfg.EProofs Cfg.Refine.
+From Falcon Require Import Base.Res IL.Const IL.Expr IL.Func Cfg.CfgOps Cfg.SOps Cfg.SProofs Cfg.Lang Cfg.MergeProofs Cfg.MergeExit Cfg.AppendProofs Cfg.AppendLang Cfg.EProofs Cfg.Refine.
 Import ListNotations.
 Local Open Scope Z_scope.
 
@@ -45,6 +45,28 @@ Theorem merge_step_lang : forall g m s, sinv g -> mergeable g m s ->
   snd (s_merge_one g m s) = Ok tt /\ forall w, lang (fst (s_merge_one g m s)) w <-> lang g w.
 Proof. exact MergeProofs.merge_step_lang. Qed.
 Print Assumptions merge_step_lang.
+
+(* 2-exit. the words that END at the exit block: with a terminal exit block (no out-edge -- every lifter
+      graph, and what append relies on) merge preserves the words leading from the entry to the end of the
+      exit block, the exit being redirected to the absorbing block when it is merged away, and the exit
+      stays terminal.  The proviso is necessary: [cx_*] below is a graph whose exit block absorbs its
+      successor and whose complete words change. *)
+Theorem merge_clang : forall g, sinv g -> exit_terminal g ->
+  exit_terminal (fst (s_merge g)) /\ forall w, clang (fst (s_merge g)) w <-> clang g w.
+Proof. exact MergeExit.merge_clang. Qed.
+Print Assumptions merge_clang.
+
+Theorem merge_step_clang : forall g m s, sinv g -> mergeable g m s -> exit_terminal g ->
+  (forall w, clang (fst (s_merge_one g m s)) w <-> clang g w) /\ exit_terminal (fst (s_merge_one g m s)).
+Proof. exact MergeExit.merge_step_clang. Qed.
+Print Assumptions merge_step_clang.
+
+Example merge_clang_needs_terminal_exit :
+  clang cx_g [] /\ ~ clang (fst (s_merge cx_g)) [] /\ ~ exit_terminal cx_g.
+Proof.
+  split; [exact cx_before|]. split; [exact cx_after|].
+  intros H. apply (H 0 eq_refl (mkedge 0 1 None)); [left; reflexivity | reflexivity].
+Qed.
 
 (* 3. append (to a non-empty graph with entry and exit; the appended graph has entry and exit):
       never fails; the result is the disjoint union of g and a copy of [other] re-indexed by the
